@@ -18,7 +18,7 @@ from rt.common import Workload, main, schema
 from rt.c06 import parse_strict, NA
 
 WORKERS = 14
-ONSETS = ["1.0", "2.5", "4.25", "7.125"]
+ONSETS = ["1.5", "2.25", "9.0", "10.125"]   # increasing as numbers, not as strings; +2 s / +0.5 s / +3 ms never collide
 DEFS = "(Definition/MyDef, (Green))"
 
 L_RAISES = "C07.raises.none"
